@@ -276,7 +276,6 @@ func genSmallProg(t *rapid.T) *pg.Prog {
 	return p
 }
 
-
 // sameDevice reports whether two files live on the same file system.
 func sameDevice(a, b os.FileInfo) bool {
 	sa, ok1 := a.Sys().(*syscall.Stat_t)
